@@ -4,7 +4,6 @@ NOT_YET = "check not built yet in this round (design in DESIGN.md section 6); wi
 
 # checks that exist but are temporarily not claimed (reason shown under not_applicable)
 PENDING = {
-    "C17": "check exists (harness/props/c17.py, Props/C17.lean) but its model is being brought in line with fix commits f1943417, 5d3f529a, 5396d924 in /repo; claimed again once correspondence holds",
 }
 
 # pid -> dict(technique, level_text, level_note, design_ref)   (only claimed properties)
